@@ -159,7 +159,39 @@ def gen(tier, rng):
     return obs, facts
 
 
-FLOOR = {"quick": dict(eq=900, facts=40), "thorough": dict(eq=8000, facts=100)}
+FLOOR = {"quick": dict(eq=900, facts=40, limb=18), "thorough": dict(eq=8000, facts=100, limb=33)}
+
+
+def limb_plan(tier):
+    """conversions that involve MULTI-LIMB reps, for all limb values (limb algebra, DESIGN 2.5b): to a finer exponent in the
+    same rep (multiply by 2^d), to a wider multi-limb rep (sign / zero extension), from a built-in rep, to a built-in rep
+    (truncation).  Widening AND rescaling at once is left out: that is recorded finding D11 (scaling in the source rep)."""
+    from vlib import limbalg as la
+    src, plan = tc.PRELUDE["clang"], []
+    reps = [("cnl::wide_integer<200, int>", 224, 32, True), ("cnl::wide_integer<129, std::uint64_t>", 192, 64, False), ("cnl::wide_integer<255, std::int64_t>", 256, 64, True)]
+    wider = {"cnl::wide_integer<200, int>": ("cnl::wide_integer<300, int>", 320), "cnl::wide_integer<129, std::uint64_t>": ("cnl::wide_integer<500, std::uint64_t>", 512),
+             "cnl::wide_integer<255, std::int64_t>": ("cnl::wide_integer<400, std::int64_t>", 448)}
+    ds = [1, 10, 37] if tier == "quick" else [1, 7, 10, 31, 32, 37, 64, 100]
+    k = 0
+
+    def add(key, text, A, B, opds, spec):
+        nonlocal src, k
+        f = "ck%d" % k
+        k += 1
+        src += 'extern "C" %s %s(%s a) { return static_cast<%s>(a); }\n' % (B, f, A, B)
+        plan.append((key, text, f, opds, None, spec))
+    for (R, W, L, sg) in reps:
+        short = R.replace("cnl::", "").replace("std::", "")
+        for d in ds:
+            A, B = "cnl::scaled_integer<%s, cnl::power<%d>>" % (R, -3), "cnl::scaled_integer<%s, cnl::power<%d>>" % (R, -3 - d)
+            add("limb/finer/%s/%d" % (short, d), "scaled_integer<%s, power<%d>>{scaled_integer<.., power<-3>>}" % (short, -3 - d), A, B, [("a", W, L)],
+                lambda cx, v, RW, d=d, W=W, sg=sg: la.pscale(la.sval(cx, v[0], W) if sg else v[0], 1 << d))
+        R2, W2 = wider[R]
+        add("limb/wider/%s" % short, "%s{%s}" % (R2.replace("cnl::", ""), short), R, R2, [("a", W, L)], lambda cx, v, RW, W=W, sg=sg: la.sval(cx, v[0], W) if sg else v[0])
+        B = "std::int64_t" if sg else "std::uint64_t"
+        add("limb/from-builtin/%s" % short, "%s{%s}" % (short, B), B, R, [("a", 64, min(L, 64))], lambda cx, v, RW, sg=sg: la.sval(cx, v[0], 64) if sg else v[0])
+        add("limb/to-builtin/%s" % short, "static_cast<%s>(%s)" % (B, short), R, B, [("a", W, L)], lambda cx, v, RW: v[0])
+    return src, plan
 
 
 def run(tier, seed, work):
@@ -180,11 +212,14 @@ def run(tier, seed, work):
     nf = common.settle_facts(r, facts)
     common.floor_check(r, "kernel pairs proved", n["proved"], FLOOR[tier]["eq"])
     common.floor_check(r, "type facts proved", nf["proved"], FLOOR[tier]["facts"])
+    lsrc, lplan = limb_plan(tier)
+    lcnt = common.limb_block(r, work, "c04limb", lsrc, lplan, seed, FLOOR[tier]["limb"], "multi-limb conversion obligations proved")
     good = [o for o in obs if o.status == "proved"]
     r.coverage = {
         "programs": len(obs), "disagreements_checked": n["refuted"], "kernel_pairs_proved": n["proved"], "kernel_pairs_refuted": n["refuted"],
         "refuted_matching_recorded_defect": sum(1 for o in obs if o.matched_alt),
         "type_facts": len(facts), "type_facts_proved": nf["proved"],
+        "multi_limb_obligations": len(lplan), "multi_limb_proved": lcnt["proved"], "multi_limb_refuted": lcnt["refuted"], "multi_limb_undecided": lcnt["undecided"],
         "rule": "conversion kernel == spec kernel (multiply in the destination rep / divide toward zero in the source rep / exact power-of-two factor on the hardware int<->float conversion / identity)",
         "samples": [{"key": o.key, "cnl": o.cnl, "ref": o.refs[o.matched_ref], "normal_form": o.nf_cnl.pretty} for o in rng.sample(good, min(6, len(good)))],
         "exhaustive": tier == "thorough",
